@@ -11,28 +11,24 @@ Definition C09_window_statement : Prop :=
     admitted c (snd (lrun cfg (fst (lrun cfg (linit t0) pre)) mid)) <= lmax cfg + dur mid / lrate cfg + 1
     /\ (dur mid = 0 -> admitted c (snd (lrun cfg (fst (lrun cfg (linit t0) pre)) mid)) <= lmax cfg).
 
-(* Proved under the side condition that a deleted bucket would have refilled completely. *)
-Theorem C09_window_partial :
-  forall cfg t0 pre mid c, wf_cfg cfg -> lmax cfg * lrate cfg <= cleanup_age cfg ->
-    Forall op_wf (pre ++ mid) ->
-    admitted c (snd (lrun cfg (fst (lrun cfg (linit t0) pre)) mid)) <= lmax cfg + dur mid / lrate cfg + 1
-    /\ (dur mid = 0 -> admitted c (snd (lrun cfg (fst (lrun cfg (linit t0) pre)) mid)) <= lmax cfg).
+Theorem C09_window : C09_window_statement.
 Proof.
-  intros cfg t0 pre mid c Hw Hage Hf. split.
-  - exact (window_bound cfg t0 pre mid c Hw Hage Hf).
-  - exact (burst_bound cfg t0 pre mid c Hw Hage Hf).
+  intros cfg t0 pre mid c Hw Hf. split.
+  - exact (window_bound cfg t0 pre mid c Hw (age_ok cfg) Hf).
+  - exact (burst_bound cfg t0 pre mid c Hw (age_ok cfg) Hf).
 Qed.
-Print Assumptions C09_window_partial.
+Print Assumptions C09_window.
 
-(* The full statement is false of the faithful model: max = 2, refill = 7200 s. *)
-Theorem C09_window_refuted : ~ C09_window_statement.
+(* Clean-up is unobservable: any history yields the same admissions as the history with its
+   clean-up runs removed. *)
+Theorem C09_cleanup_invisible :
+  forall cfg t0 ops, wf_cfg cfg -> Forall op_wf ops ->
+    snd (lrun cfg (linit t0) ops) = snd (lrun cfg (linit t0) (strip ops)).
 Proof.
-  intros H. destruct (H refute_cfg 0 [] refute_ops 1) as [Hb _].
-  - unfold wf_cfg, refute_cfg; cbn; lia.
-  - unfold refute_ops. repeat constructor; cbn; lia.
-  - cbn [lrun fst] in Hb. destruct refute_admitted as [E1 E2]. rewrite E1, E2 in Hb. lia.
+  intros cfg t0 ops Hw Hf.
+  exact (proj1 (sim_run cfg ops (linit t0) (linit t0) Hw (age_ok cfg) Hf (sim_refl _ _) (linit_sinv _ _))).
 Qed.
-Print Assumptions C09_window_refuted.
+Print Assumptions C09_cleanup_invisible.
 
 (* Isolation: what client c observes does not depend on other clients' requests. *)
 Theorem C09_isolation :
@@ -66,8 +62,7 @@ Print Assumptions C09_reachable_inv.
 (* non-vacuity: a concrete configuration and history meet the hypotheses *)
 Example C09_nonvacuous :
   wf_cfg {| lmax := 3; lrate := 1000000000 |}
-  /\ lmax {| lmax := 3; lrate := 1000000000 |} * lrate {| lmax := 3; lrate := 1000000000 |} <= cleanup_age {| lmax := 3; lrate := 1000000000 |}
   /\ Forall op_wf [LAllow 1; LAdvance 5; LCleanup; LAllow 2]
   /\ snd (lrun {| lmax := 3; lrate := 1000000000 |} (linit 0) [LAllow 1; LAllow 1; LAllow 1; LAllow 1])
      = [(1, true); (1, true); (1, true); (1, false)].
-Proof. unfold wf_cfg, cleanup_age, hour. cbn. repeat split; try lia; repeat constructor; cbn; lia. Qed.
+Proof. unfold wf_cfg. cbn. repeat split; try lia; repeat constructor; cbn; lia. Qed.
